@@ -30,6 +30,15 @@ ASSUMPTIONS = ['the equal-value claim is decided by proof only in the directions
 
 def gen_f(rng, n, separable=False):
     """positive terms at 'vertices' (incl. the constant), negative terms at midpoints of pairs of vertices: bounded below"""
+    if n >= 2 and separable == 'rowsum':
+        # some exponents are negative while every row sum is nonnegative and the zero row is present: the orthogonality-based
+        # cover reduction (valid for nonnegative exponent matrices only) must not fire
+        p2 = rng.choice([[1, 7], [1, 4]])
+        p1 = [2, -1]
+        mid = [Fraction(p1[0] + p2[0], 3), Fraction(p1[1] + p2[1], 3)]
+        rows = [([Fraction(0)] * n, Fraction(rng.choice([3, 5]))), ([Fraction(v) for v in p1] + [Fraction(0)] * (n - 2), Fraction(rng.choice([1, 2]))),
+                ([Fraction(v) for v in p2] + [Fraction(0)] * (n - 2), Fraction(1)), (mid + [Fraction(0)] * (n - 2), Fraction(-rng.choice([2, 3])))]
+        return rows
     if n >= 2 and (separable or rng.random() < 0.2):
         # separable family: c0 + sum_j a_j exp(2 x_j) - sum_j b_j exp(x_j); after the orthogonality-based reduction every
         # negative term keeps a cover of only two exponents
@@ -206,7 +215,7 @@ def run(ctx):
     kf = {f['id']: f for f in vlib.load_known_findings().get('findings', [])}
     hit = False
     for it in range(ctx.n(30, 240)):
-        why, known, js, out = one(ctx.rng, separable=(it < 4))
+        why, known, js, out = one(ctx.rng, separable=(True if it < 4 else ('rowsum' if it < 6 else False)))
         ctx.evaluations += len(out)
         ctx.count('domain', js['domain'])
         vals = sorted(set(round(v[1], 4) for v in out.values() if v[0] == 'solved' and isinstance(v[1], float) and math.isfinite(v[1])))
@@ -286,7 +295,7 @@ def search(ctx):
     if why:
         return {'suite': 'kernel_basis_small_scale', 'property_failure': why}
     for it in range(25):
-        why, known, js, out = one(ctx.rng, separable=(it < 4))
+        why, known, js, out = one(ctx.rng, separable=(True if it < 4 else ('rowsum' if it < 6 else False)))
         if why:
             return {'instance': js, 'property_failure': why}
     return None
